@@ -264,12 +264,13 @@ struct Gen {
 		for (bool changed = true; changed;) { changed = false;
 			for (auto &s : r.steps) if (s.kind == "mreg" && s.c >= 0 && (s.h > 1 || r.steps[s.a].ffd > 0 || r.steps[s.c].ffd > 0)) { s.c = -1; changed = true; }
 			if (changed) analyse(); }
-		// hold registers keep what they sampled for an unbounded time: combined with registers without reset value sampling during a
-		// synchronous reset (see finding "reset-edge-sampling") the divergence would not be confined to the cycles before the pipeline has filled
-		{ bool hold = false, unreset = false;
-		  for (auto &s : r.steps) { if (s.kind == "mreg" && s.c >= 0) hold = true; if ((s.kind == "mreg" || s.kind == "ffreg" || s.kind == "negreg") && s.rst.empty()) unreset = true; }
-		  for (auto &g : r.groups) for (auto &m : g.mem) if (m.rst.empty()) unreset = true;
-		  if (hold && unreset && r.reset == "sync") r.reset = "none"; }
+		// A hold register (movable register with a data dependent enable) needs a defined enable in every cycle: the simulator turns a register
+		// with an undefined enable completely undefined, the holding circuit's multiplexer only the bits that differ (four-state pessimism, not a
+		// functional difference). So designs with hold registers give every register and group input a reset value.
+		{ bool hold = false; for (auto &s : r.steps) if (s.kind == "mreg" && s.c >= 0) hold = true;
+		  if (hold) { for (auto &s : r.steps) if ((s.kind == "mreg" || s.kind == "ffreg") && s.rst.empty()) s.rst = rndBits(s.w);
+		              for (auto &g : r.groups) for (auto &m : g.mem) if (m.rst.empty()) m.rst = rndBits(r.ins[m.pin].w);
+		              if (r.rmix != "all") r.rmix = "all"; } }
 		if (noGroup) {
 			// lengthen the entry chains so that every hint finds a movable register on every path: chain length = max hints downstream (+ sometimes one spare)
 			std::vector<Step> ns; std::vector<int> remap(r.steps.size(), -1);
